@@ -10,14 +10,16 @@ CONFIG = {
                  "kernel-checked theorems about errors, limits, the skip rule and the escape table; native_decide regression facts on the former witness",
     "level_text": "Proof (all inputs, all hashes/limits, kernel-checked): (impl_eq_spec_partial) on RDF datasets without self-referencing quads whose "
                   "first-degree hashes are pairwise distinct - where Hash N-Degree Quads is never entered - the model of the implementation and the "
-                  "transcription of the Recommendation (4.4.3 steps 1-6, 4.5, 4.6, canonical N-Quads) produce the same bytes; (escapes_as_specified) the "
+                  "transcription of the Recommendation (4.4.3 steps 1-6, 4.5, 4.6, canonical N-Quads) produce the same bytes; (hash_related_as_specified) Hash Related Blank Node 4.7.3 hashes exactly the specified input for every position incl. g; "
+                  "(skip_rule_monotone) testing the skip rule once after the loop is equivalent to testing it after every related node; (escapes_as_specified) the "
                   "escape table regenerated from _cnq.rs is the canonical N-Quads rule for every character; (unsupported_iff) Unsupported is returned "
                   "exactly for rejected predicates / quoted triples / variables; (limits_only_fail) the non-standard safeguards only ever turn a result "
                   "into an error, never change one; (skip_rule_as_specified) the pruning test of the repaired smaller_path is the skip rule of 5.4.4.3/5.4.5.5 "
                   "for all paths; (flag_smaller_path_is_spec_rule, flag_predicate_must_be_iri) the two flags regenerated from rdfc10.rs have the repaired "
                   "values - a regression flips a flag and fails these obligations. (fails_only_explicitly) normalize_with ends in a result, Unsupported or ToxicGraph(depth|permutations) - no unwrap can fail, "
-                  "the recursion is bounded by the number of blank nodes. That ToxicGraph arises only 'for a limit actually "
-                  "exceeded' is an ORACLE, not a theorem: o.st=ok is demanded whenever the transcription succeeds and the dataset is statically within "
+                  "the recursion is bounded by the number of blank nodes. (never_fails_within_limits) if step 2 accepts the dataset and it is statically within the limits (Rdfc10.withinLimits: no "
+                  "related list can exceed the permutation limit, the depth guard cannot trip up to depth = #blank nodes) the result is Ok - the same "
+                  "predicate drives the differential oracle o.st=ok is demanded whenever the transcription succeeds and the dataset is statically within "
                   "the configured limits (no related list can exceed the permutation limit, the depth guard cannot trip at depth = #blank nodes). Conformance beyond that fragment (4.7, 4.8: Hash Related / Hash N-Degree) is NOT a theorem (ImplEqSpec is open for the "
                   "repaired code; its refutation for the former length-first rule is kept as a non-audited guard lemma): the former "
                   "24-quad witness and its family now agree with the transcription (C06_witness_agrees, C06_family_agrees, native_decide) and the rest is "
@@ -36,7 +38,7 @@ CONFIG = {
                   "regression flips the flags, makes C06_witness/not_implEqSpec non-vacuous again and re-opens the differential failure on corpus/C06/witness.req.",
     "tables": ["cnq_escapes", "rdfc10_smaller_path"],
     "lean_targets": ["SophiaProofs.Props.C06", "SophiaProofs.Audit.C06"],
-    "theorems": ["impl_eq_spec_partial", "fails_only_explicitly", "flag_smaller_path_is_spec_rule", "flag_predicate_must_be_iri", "skip_rule_as_specified",
+    "theorems": ["impl_eq_spec_partial", "hash_related_as_specified", "skip_rule_monotone", "fails_only_explicitly", "never_fails_within_limits", "flag_smaller_path_is_spec_rule", "flag_predicate_must_be_iri", "skip_rule_as_specified",
                  "unsupported_iff", "unsupported_iff_now", "normalize_unsupported_iff", "limits_only_fail", "normalize_limits_only_fail",
                  "escapes_as_specified", "C06_witness_agrees", "C06_family_agrees"],
     "native_ok": ["C06_witness_agrees", "C06_family_agrees"],
